@@ -515,8 +515,19 @@ def run_estimate_tie(ck, lines):
     """text of the model's complexity-estimate statement (TE.plan_eval) and of the tags statement without a query
     (TE.all_tags) = recorded statement, byte for byte"""
     cases, seen = [], set()
+    tcases, tseen = [], set()
+    tclasses = ("plain-noon", "cross-midnight", "first-half-hour", "month-end", "two-days", "random", "leap-day", "late-utc")
     for l in lines:
         if l["kind"] != "stmt" or l["zone"] not in (0, 10800):
+            continue
+        if l["ep"] in TQ_EPS and not l["sql"].startswith("WITH pre_final"):
+            # the statement whose rows are returned: one window class per (endpoint, layout, portion)
+            m = re.search(r"cityHash64\(trace_id\) % (\d+)\) == \((\d+)\)", l["sql"])
+            rf = (int(m.group(1)), int(m.group(2))) if m else (0, 0)
+            tkey = (l["ep"], l["cluster"], rf)
+            if tkey not in tseen and l["class"] == tclasses[(len(l["ep"]) + rf[1] + (2 if l["cluster"] else 0)) % len(tclasses)]:
+                tseen.add(tkey)
+                tcases.append((l, rf))
             continue
         est = l["ep"] in TQ_EPS and l["sql"].startswith("WITH pre_final")
         if not est and l["ep"] not in ("tempo_tags_v2", "tempo_values_v2"):
@@ -529,20 +540,30 @@ def run_estimate_tie(ck, lines):
     if not cases:
         ck.obligation("TraceQL estimate / tags statements of the sweep compared with the model", False, "no statement found")
         return
-    dates = sorted({utc_day(x) for l, _ in cases for x in (l["from_ns"], l["to_ns"], l["from_ns"] - 1800 * 10**9, l["to_ns"] - 1800 * 10**9)})
+    dates = sorted({utc_day(x) for l, _ in cases + tcases for x in (l["from_ns"], l["to_ns"], l["from_ns"] - 1800 * 10**9, l["to_ns"] - 1800 * 10**9)})
     dn = {d: "d_%d" % i for i, d in enumerate(dates)}
     hdr = ("From Coq Require Import List ZArith NArith String Ascii Bool.\n"
            "From Qryn Require Import lib.Strs model.Sql model.Scans model.ScansTq.\n"
            "From Qryn Require model.TqSql model.Traceql model.TraceqlPlan.\n"
            "Import ListNotations.\nOpen Scope string_scope.\nOpen Scope Z_scope.\n"
            + "".join('Definition %s := "%s".\n' % (n, d) for d, n in dn.items()) +
-           "Definition mk (f t : Z) (fd td ffd fft : string) (lim : Z) (cl : bool) (db : string) : TraceqlPlan.ctx :=\n"
+           "Definition mkr (f t : Z) (fd td ffd fft : string) (lim : Z) (cl : bool) (db : string) (rfm rfi : Z) : TraceqlPlan.ctx :=\n"
            "  {| TraceqlPlan.from_ns := f; TraceqlPlan.to_ns := t; TraceqlPlan.from_date := fd; TraceqlPlan.to_date := td;\n"
            "     TraceqlPlan.ffd_from := ffd; TraceqlPlan.ffd_to := fft; TraceqlPlan.limit := lim; TraceqlPlan.is_cluster := cl;\n"
-           "     TraceqlPlan.rf_max := 0; TraceqlPlan.rf_i := 0; TraceqlPlan.cached := [];\n"
-           '     TraceqlPlan.attrs_table := db ++ "tempo_traces_attrs_gin"; TraceqlPlan.attrs_dist_table := db ++ (if cl then "tempo_traces_attrs_gin_dist" else "tempo_traces_attrs_gin");\n'
-           '     TraceqlPlan.traces_table := db ++ "tempo_traces"; TraceqlPlan.traces_dist_table := db ++ (if cl then "tempo_traces_dist" else "tempo_traces");\n'
-           '     TraceqlPlan.kv_dist_table := db ++ (if cl then "tempo_traces_kv_dist" else "tempo_traces_kv") |}.\n')
+           "     TraceqlPlan.rf_max := rfm; TraceqlPlan.rf_i := rfi; TraceqlPlan.cached := [];\n"
+           "     (* tables.PopulateTableNames: the local tables carry no database prefix, the distributed ones do *)\n"
+           '     TraceqlPlan.attrs_table := "tempo_traces_attrs_gin"; TraceqlPlan.attrs_dist_table := db ++ (if cl then "tempo_traces_attrs_gin_dist" else "tempo_traces_attrs_gin");\n'
+           '     TraceqlPlan.traces_table := "tempo_traces"; TraceqlPlan.traces_dist_table := db ++ (if cl then "tempo_traces_dist" else "tempo_traces");\n'
+           '     TraceqlPlan.kv_dist_table := db ++ (if cl then "tempo_traces_kv_dist" else "tempo_traces_kv") |}.\n'
+           "Definition mk f t fd td ffd fft lim cl db := mkr f t fd td ffd fft lim cl db 0 0.\n")
+    dbof = lambda l: (re.search(r"(`[^`]+`\.)tempo_", l["sql"]) or [None, ""])[1]
+    titems = []
+    for i, (l, rf) in enumerate(tcases):
+        q, mode, lim = TQ_EPS[l["ep"]]
+        f, t = l["from_ns"], l["to_ns"]
+        ctx = "(mkr %d %d %s %s %s %s %d %s %s %d %d)" % (f, t, dn[utc_day(f)], dn[utc_day(t)], dn[utc_day(f - 1800 * 10**9)], dn[utc_day(t - 1800 * 10**9)],
+                                                         lim, "true" if l["cluster"] else "false", coq_string(dbof(l)), rf[0], rf[1])
+        titems.append("{| tt_id := %d; tt_ctx := %s; tt_q := %s; tt_mode := %s; tt_sql := %s |}" % (i, ctx, q, mode, coq_string(l["sql"])))
     items = []
     for i, (l, est) in enumerate(cases):
         f, t = l["from_ns"], l["to_ns"]
@@ -554,7 +575,9 @@ def run_estimate_tie(ck, lines):
             i, ctx, ("Some " + TQ_EPS[l["ep"]][0]) if est else "None", coq_string(l["sql"])))
     txt = (hdr + "Definition cases : list te_case := [\n " + ";\n ".join(items) + "].\n"
            "Definition M := Eval vm_compute in te_mismatches cases.\nPrint M.\n"
-           "Definition K := Eval vm_compute in te_ctx_not_ok cases.\nPrint K.\n")
+           "Definition K := Eval vm_compute in te_ctx_not_ok cases.\nPrint K.\n"
+           "Definition tcases : list tt_case := [\n " + ";\n ".join(titems) + "].\n"
+           "Definition T := Eval vm_compute in tt_mismatches tcases.\nPrint T.\n")
     rc, out = ck.coq_eval("C13_estimate", txt, timeout=600)
     flat = " ".join((out or "").split())
     m = re.search(r"M = \[(.*?)\]\s*: list Z", flat)
@@ -569,6 +592,15 @@ def run_estimate_tie(ck, lines):
                   "on %d statements (%d endpoints, both layouts)" % (len(cases), len(eps)), not bad and len(eps) >= 8,
                   "; ".join("%s %s %s: %.400s" % (cases[i][0]["ep"], "cluster" if cases[i][0]["cluster"] else "single", cases[i][0]["class"], cases[i][0]["sql"]) for i in bad[:3]))
     ck.obligation("tq_ctx_ok holds of every context of the estimate / tags comparison", not notok, str(notok[:5]))
+    tm = re.search(r"T = \[(.*?)\]\s*: list Z", flat)
+    tbad = [int(x) for x in re.findall(r"-?\d+", tm.group(1))] if tm else [-1]
+    teps = {c[0]["ep"] for c in tcases}
+    ck.obligation("correspondence: TqSql.render (TraceqlPlan.plan q mode ctx) = recorded search / tags / values statement, byte for byte, on %d statements "
+                  "(%d endpoints incl. the three portions of the portioned search, both layouts)" % (len(tcases), len(teps)),
+                  bool(tm) and not tbad and len(teps) == len(TQ_EPS),
+                  "; ".join("%s %s %s rf %s: %.300s" % (tcases[i][0]["ep"], "cluster" if tcases[i][0]["cluster"] else "single", tcases[i][0]["class"], tcases[i][1], tcases[i][0]["sql"])
+                            for i in tbad[:3] if 0 <= i < len(tcases)))
+    ck.coverage["evaluations"] += len(tcases)
     ck.extra["traceql_estimate_ties"] = len(cases)
     ck.coverage["evaluations"] += len(cases)
 
